@@ -4,7 +4,7 @@ id="$1"; tier="${2:-quick}"; prop=$(echo "$id" | cut -c1-3)
 [ -n "${3:-}" ] && prop="$3"
 cd /verif || exit 2
 git -C /repo diff --quiet || { echo "/repo not clean"; exit 2; }
-git -C /repo apply /verif/seeded/$id/patch.diff || exit 2
+git -C /repo apply /verif/seeded/$id/patch.diff 2>/dev/null || (cd /repo && patch -p1 -F3 -s --no-backup-if-mismatch < /verif/seeded/$id/patch.diff) || { git -C /repo checkout -- .; echo 'patch does not apply'; exit 2; }
 cp evidence/$prop.json /tmp/mut/ev_$prop.json 2>/dev/null
 ./check $prop --tier $tier > /tmp/mut/try_$id.log 2>&1; rc=$?
 cp /tmp/mut/ev_$prop.json evidence/$prop.json 2>/dev/null
